@@ -45,6 +45,7 @@ class TaggedDevice:
 
     # link model: a read error loses the host's read, not the device's answer - the answer stays in
     # the link's buffer and is what the next read on the same (not re-opened) link returns
+    slow_left = 0
     served = None            # per request handled: (tag, number of device exchanges made while it was handled, reply)
     fault_in = None          # the n-th exchange from now fails with a read error
     stale = None
@@ -61,6 +62,11 @@ class TaggedDevice:
         self.log.append((tag, bytes(apdu)))
         if self.delay:
             time.sleep(self.rng.random() * self.delay)
+        if self.slow_left > 0:
+            # the exchanges right after a link fault (the repair, whoever carries it out) are slow: widens the
+            # window in which anything that talks to the device outside the request being served would show
+            self.slow_left -= 1
+            time.sleep(0.03)
         ans = self.answer(apdu)
         if self.stale is not None:
             if self.opens() != self.stale[0]:
@@ -71,6 +77,7 @@ class TaggedDevice:
             self.fault_in -= 1
             if self.fault_in <= 0:
                 self.fault_in = None
+                self.slow_left = 14
                 if not self.use_shared:
                     # (over the real TCP transport the in-process signer closes the connection instead:
                     # nothing stays buffered, the answer is lost with the link)
